@@ -1,6 +1,7 @@
 """Unit `guarded`: handles.hpp (exclusive side), guarded.hpp, guarded_opt.hpp — Scheme L
 (lock discipline, DESIGN.md section 4) for M in {std::mutex, std::timed_mutex}."""
-from _common import GHOST_BOUNDS, GHOST_ASSIGNS, CNT_OK, CNT_R, CNT_G
+from _lockspec import (GHOST, TAGMAP, handle_entries, try_handle_entries, wrapper_acq_entries,
+                       whole_object_ops, GSET, GOSET)
 
 UNIT = dict(
     name='guarded',
@@ -10,206 +11,26 @@ UNIT = dict(
         'meta-theorem L (DESIGN.md 4): if every access to the guarded object happens with its mutex held in the right mode, conflicting accesses never overlap and are ordered by happens-before',
         'instantiations verified: T = abstract payload (copy/move/assign are user code that may throw), M in {std::mutex, std::timed_mutex}; other T/M unverified',
         'client obligation (non-recursive mutex): a thread does not call a blocking acquisition on a wrapper it already holds a handle of',
+        'CBMC cannot dereference a pointer that a replaced contract returned inside a struct; wrapper postconditions therefore state the handle invariant in terms of the wrapper\'s own fields',
     ],
-    ghost=GHOST_BOUNDS + r'''
-/* well-formed lock object: an owning lock names a mutex this thread holds exclusively */
-#define W(l) (!(l).owns || ((l).m != 0 && (l).m->excl_me))
-/* handle invariant H (L3): a non-null handle either guards an unprotected object without
-   owning anything (locking disabled) or owns exactly the mutex that protects its object */
-#define H(h) (W((h).m_handle_lock) && ((h).data == 0 || ((h).data->guard == 0 && !(h).m_handle_lock.owns) || \
-              ((h).m_handle_lock.owns && (h).m_handle_lock.m == (h).data->guard)))
-/* wrapper invariants */
-#define G(s) ((s)->m_obj.guard == &(s)->m_mutex && (s)->m_mutex.guards == &(s)->m_obj && (s)->m_obj.life == VF_LIVE)
-#define GO(s) ((s)->m_obj.life == VF_LIVE && ((s)->enabled ? ((s)->m_obj.guard == &(s)->m_mutex && (s)->m_mutex.guards == &(s)->m_obj) \
-                                                            : ((s)->m_obj.guard == 0 && (s)->m_mutex.guards == 0)))
-#define FREE(m) (!(m).excl_me && (m).shared_me == 0)
-''')
-
-TAGMAP = {'L1': 'C01 C02 C15', 'L2': 'C01 C08 C20', 'L5': 'C01', 'life': 'C15 C20', 'noexcept': 'C20'}
-
-R1, G1, R2, G2, R3, G3 = CNT_R(10), CNT_G(3), CNT_R(100), CNT_G(8), CNT_R(1000), CNT_G(20)
+    ghost=GHOST)
 
 
-def HSET(n, lock='m_handle_lock'):
-    """harness set-up: give the pointer fields of handle *n valid (or null) targets"""
-    return ('struct vf_mutex %(n)s_mx; struct vf_payload %(n)s_po; %(n)s_mx.guards = vf_nondet_bool() ? &%(n)s_po : 0; '
-            '%(n)s_po.guard = vf_nondet_bool() ? &%(n)s_mx : 0; %(n)s->%(l)s.m = vf_nondet_bool() ? &%(n)s_mx : 0; '
-            '%(n)s->data = vf_nondet_bool() ? &%(n)s_po : 0;') % dict(n=n, l=lock)
-
-
-MSET = lambda n: 'struct vf_payload %s_po; %s->guards = vf_nondet_bool() ? &%s_po : 0;' % (n, n, n)
-GSET = 'self->m_obj.guard = &self->m_mutex; self->m_mutex.guards = &self->m_obj;'
-GOSET = 'if (self->enabled) { self->m_obj.guard = &self->m_mutex; self->m_mutex.guards = &self->m_obj; } else { self->m_obj.guard = 0; self->m_mutex.guards = 0; }'
-
-HL = 'self->m_handle_lock'
-
-
-def handle_entries(hname, props, lock='m_handle_lock', shared=False):
-    """contracts of lock_handle / shared_lock_handle members; `shared`: the lock may be a shared_lock"""
-    L = 'self->' + lock
-    S = 'src->' + lock
-    held = '(%s.m->excl_me || %s.m->shared_me > 0)' % (L, L)
-    rel_cnt = 'vf_n_rel == __CPROVER_old(vf_n_rel) + (__CPROVER_old(%s.owns) ? 1 : 0)' % L
-    held_cnt = 'vf_held == __CPROVER_old(vf_held) - (__CPROVER_old(%s.owns) ? 1 : 0)' % L
-    freed = '(__CPROVER_old(%s.owns) ==> !__CPROVER_old(%s.m)->excl_me)' % (L, L)
-    WL = 'WS(%s)' % L if shared else 'W(%s)' % L
-    WSRC = 'WS(%s)' % S if shared else 'W(%s)' % S
-    mtx_assign = '%s.owns: *(%s.m)' % (L, L)
-    e = {}
-    e[hname + r'::unlock'] = dict(
-        props=props, setup=HSET('self', lock),
-        requires=[WL + ' && !vf_exc && (!%s.owns || vf_held >= 1) && ' % L + R1],
-        ensures=[('C08', 'self->data == 0 && !%s.owns' % L, 'after unlock() the handle is null and owns nothing'),
-                 ('C01 C02 C08', rel_cnt + ' && ' + held_cnt + ' && ' + freed, 'the lock is released exactly once iff it was owned'),
-                 ('C08', '!vf_exc && ' + G1, 'no exception')],
-        assigns=['*self, ' + GHOST_ASSIGNS, mtx_assign])
-    e[hname + r'::dtor'] = dict(
-        props=props, setup=HSET('self', lock),
-        requires=[WL + ' && !vf_exc && (!%s.owns || vf_held >= 1) && ' % L + R1],
-        ensures=[('C01 C02 C08', rel_cnt + ' && ' + held_cnt + ' && ' + freed, 'the destructor releases the lock exactly once iff it is owned'),
-                 ('C08', '!vf_exc && ' + G1, 'no exception')],
-        assigns=['*self, ' + GHOST_ASSIGNS, mtx_assign])
-    SRC = 'vf_unnamed1_->' + lock
-    e[hname + r'::ctor_move'] = dict(
-        props=props, setup=HSET('vf_unnamed1_', lock),
-        requires=[WSRC.replace('src->', 'vf_unnamed1_->') + ' && self != vf_unnamed1_ && !vf_exc'],
-        ensures=[('C08', 'self->data == __CPROVER_old(vf_unnamed1_->data) && %s.owns == __CPROVER_old(%s.owns) && %s.m == __CPROVER_old(%s.m)' % (L, SRC, L, SRC),
-                  'the new handle takes over pointer and lock'),
-                 ('C08', '!%s.owns && %s.m == 0' % (SRC, SRC), 'the moved-from handle owns nothing (it can be destroyed without releasing)'),
-                 ('C01 C02 C08', 'vf_n_mutex_ops == __CPROVER_old(vf_n_mutex_ops) && vf_held == __CPROVER_old(vf_held) && vf_n_rel == __CPROVER_old(vf_n_rel)', 'a move performs no mutex operation'),
-                 ('', '!vf_exc', 'noexcept')],
-        assigns='*self, *vf_unnamed1_')
-    e[hname + r'::op_assign_move'] = dict(
-        props=props, setup=HSET('self', lock) + ' ' + HSET('vf_unnamed1_', lock),
-        requires=[WL + ' && ' + WSRC.replace('src->', 'vf_unnamed1_->') + ' && self != vf_unnamed1_ && !vf_exc && (!%s.owns || vf_held >= 1) && ' % L + R1 +
-                  ' && (!(%s.owns && vf_unnamed1_->%s.owns) || %s.m != vf_unnamed1_->%s.m)' % (L, lock, L, lock)],
-        ensures=[('C08', 'self->data == __CPROVER_old(vf_unnamed1_->data) && %s.owns == __CPROVER_old(vf_unnamed1_->%s.owns) && %s.m == __CPROVER_old(vf_unnamed1_->%s.m)' % (L, lock, L, lock),
-                  'the target takes over pointer and lock'),
-                 ('C08', '!vf_unnamed1_->%s.owns && vf_unnamed1_->%s.m == 0' % (lock, lock), 'the moved-from handle owns nothing'),
-                 ('C01 C02 C08', rel_cnt + ' && ' + held_cnt + ' && ' + freed, "the target's previous lock is released exactly once iff it was owned"),
-                 ('', '__CPROVER_return_value == self && !vf_exc && ' + G1, 'returns *this')],
-        assigns=['*self, *vf_unnamed1_, ' + GHOST_ASSIGNS, mtx_assign])
-    e[hname + r'::(op_arrow|op_deref)'] = dict(
-        props=props, requires=['!vf_exc'],
-        ensures=[('C08', '__CPROVER_return_value == self->data && !vf_exc', 'returns the stored pointer, no effects')],
-        assigns='')
-    e[hname + r'::op_bool'] = dict(
-        props=props, requires=['!vf_exc'],
-        ensures=[('C08', '__CPROVER_return_value == (self->data != 0) && !vf_exc', 'true iff the handle is non-null')],
-        assigns='')
-    return e
-
-
-def acq_post(ret, obj, mtx, mode):
-    """postcondition pieces of acquisition functions. mode: 'block' | 'try' | 'timed'"""
-    L = ret + '->m_handle_lock'
-    got = '(%s->data == %s && %s.owns && %s.m == %s && (%s)->excl_me)' % (ret, obj, L, L, mtx, mtx)
-    miss = '(%s->data == 0 && !%s.owns)' % (ret, L)
-    cnt = {'block': 'vf_n_block == __CPROVER_old(vf_n_block) + 1 && vf_n_try == __CPROVER_old(vf_n_try) && vf_n_timed == __CPROVER_old(vf_n_timed)',
-           'try': 'vf_n_block == __CPROVER_old(vf_n_block) && vf_n_try == __CPROVER_old(vf_n_try) + 1 && vf_n_timed == __CPROVER_old(vf_n_timed)',
-           'timed': 'vf_n_block == __CPROVER_old(vf_n_block) && vf_n_try == __CPROVER_old(vf_n_try) && vf_n_timed == __CPROVER_old(vf_n_timed) + 1'}[mode]
-    held = 'vf_held == __CPROVER_old(vf_held) + (%s.owns ? 1 : 0) && vf_n_rel == __CPROVER_old(vf_n_rel)' % L
-    return got, miss, cnt, held
+def merge(dst, src):
+    for k, v in src.items():
+        vs = v if isinstance(v, list) else [v]
+        if k in dst:
+            old = dst[k] if isinstance(dst[k], list) else [dst[k]]
+            dst[k] = old + vs
+        else:
+            dst[k] = vs if len(vs) > 1 else vs[0]
 
 
 FN = {}
-FN.update(handle_entries('lock_handle', 'C01 C08'))
-
-# ---- lock_handle constructors
-FN[r'lock_handle::ctor__pointer_std_unique_lock_.*'] = dict(
-    props='C01 C08', setup='struct vf_mutex lock_mx; lock_mx.guards = 0; lock->m = vf_nondet_bool() ? &lock_mx : 0;',
-    requires=['W(*lock) && &self->m_handle_lock != lock && !vf_exc'],
-    ensures=[('C08', 'self->data == val && self->m_handle_lock.owns == __CPROVER_old(lock->owns) && self->m_handle_lock.m == __CPROVER_old(lock->m)', 'stores the pointer and takes the lock over'),
-             ('C08', '!lock->owns && lock->m == 0', 'the by-value lock argument is left empty'),
-             ('C01 C08', 'vf_n_mutex_ops == __CPROVER_old(vf_n_mutex_ops) && vf_held == __CPROVER_old(vf_held)', 'no mutex operation'),
-             ('', '!vf_exc', 'does not throw')],
-    assigns='*self, *lock')
-FN[r'lock_handle::ctor__pointer_std_(timed_)?mutex_ref'] = dict(
-    props='C01 C08', setup=MSET('mut'),
-    requires=['FREE(*mut) && vf_held == 0 && !vf_exc && ' + R1],
-    ensures=[('C01 C08', 'self->data == val && self->m_handle_lock.owns && self->m_handle_lock.m == mut && mut->excl_me', 'blocking constructor: owns the given mutex'),
-             ('C01 C08', 'vf_held == 1 && vf_n_acq_excl == __CPROVER_old(vf_n_acq_excl) + 1 && vf_n_rel == __CPROVER_old(vf_n_rel)', 'exactly one exclusive acquisition, nothing released'),
-             ('C08', 'vf_n_block == __CPROVER_old(vf_n_block) + 1 && vf_n_try == __CPROVER_old(vf_n_try) && vf_n_timed == __CPROVER_old(vf_n_timed)', 'a blocking acquisition'),
-             ('', '!vf_exc && mut->guards == __CPROVER_old(mut->guards) && ' + G1, 'frame')],
-    assigns=['*self, *mut, ' + GHOST_ASSIGNS, 'mut->guards != 0: mut->guards->v'])
-
-# ---- try_lock_handle family
-for _pat, _mode in ((r'try_lock_handle', 'try'), (r'try_lock_handle_for', 'timed'), (r'try_lock_handle_until', 'timed')):
-    got, miss, cnt, held = acq_post('vf_ret', 'obj', 'gmutex', _mode)
-    FN[_pat] = dict(
-        props='C01 C08', setup=MSET('gmutex'),
-        requires=['!vf_exc && vf_held >= 0 && vf_held < VF_MAX_HELD && ' + R2],
-        ensures=[('C01 C08', '(obj != 0 ==> (%s || %s)) && (obj == 0 ==> vf_ret->data == 0)' % (got, miss), 'non-null exactly when the lock was obtained'),
-                 ('C01 C08', 'vf_ret->m_handle_lock.owns ==> (vf_ret->m_handle_lock.m == gmutex && gmutex->excl_me)', 'an owning result owns the given mutex'),
-                 ('C08', cnt, 'never blocks beyond the given time'),
-                 ('C01 C08', held, 'lock balance'),
-                 ('', '!vf_exc && gmutex->guards == __CPROVER_old(gmutex->guards) && ' + G2, 'frame')],
-        assigns=['*vf_ret, *gmutex, ' + GHOST_ASSIGNS, 'gmutex->guards != 0: gmutex->guards->v'])
-
-# ---- guarded<T,M>
-got, miss, cnt_b, held = acq_post('vf_ret', '&self->m_obj', '&self->m_mutex', 'block')
-FN[r'guarded::lock'] = dict(
-    props='C01 C08', setup=GSET,
-    requires=['G(self) && FREE(self->m_mutex) && vf_held == 0 && !vf_exc && ' + R3],
-    ensures=[('C01 C08', got, "lock() returns a non-null handle owning this wrapper's own mutex"),
-             ('C08', cnt_b, 'one blocking acquisition'),
-             ('C01 C08', held + ' && G(self) && !vf_exc && ' + G3, 'lock balance, invariant')],
-    assigns='*vf_ret, self->m_mutex, self->m_obj.v, ' + GHOST_ASSIGNS)
-for _m, _mode in (('try_lock', 'try'), ('try_lock_for', 'timed'), ('try_lock_until', 'timed')):
-    got, miss, cnt, held = acq_post('vf_ret', '&self->m_obj', '&self->m_mutex', _mode)
-    FN[r'guarded::' + _m] = dict(
-        props='C01 C08', setup=GSET,
-        requires=['G(self) && vf_held == 0 && !vf_exc && ' + R3],
-        ensures=[('C01 C08', '(%s || %s)' % (got, miss), 'non-null handle (to the wrapped object, owning this mutex) iff the lock was obtained, else null'),
-                 ('C08', cnt, 'never blocks beyond the given time'),
-                 ('C01 C08', held + ' && G(self) && !vf_exc && ' + G3, 'lock balance, invariant')],
-        assigns='*vf_ret, self->m_mutex, self->m_obj.v, ' + GHOST_ASSIGNS)
-
-ONE_CS = ('vf_n_acq_excl == __CPROVER_old(vf_n_acq_excl) + 1 && vf_n_rel == __CPROVER_old(vf_n_rel) + 1 && vf_held == 0 && FREE(self->m_mutex)')
-
-
-def whole_object_ops(cls, inv, setup):
-    e = {}
-    e[cls + r'::load'] = dict(
-        props='C01 C15 C20', setup=setup,
-        requires=[inv + ' && FREE(self->m_mutex) && vf_held == 0 && !vf_exc && ' + R3],
-        ensures=[('C01 C15 C20', ONE_CS, 'exactly one critical section; the lock is released on normal and on exceptional exit'),
-                 ('C15', '!vf_exc ==> (vf_ret->v == vf_cs_entry_v && vf_ret->life == VF_LIVE)', 'load returns the value the object had inside the critical section'),
-                 ('C15 C20', inv + ' && self->m_obj.v == vf_cs_entry_v', 'the object is not modified by load'),
-                 ('', G3, 'counters')],
-        assigns='*vf_ret, self->m_mutex, self->m_obj.v, ' + GHOST_ASSIGNS)
-    for m in ('store', 'op_assign'):
-        e[cls + '::' + m] = dict(
-            props='C01 C15 C20', setup=setup,
-            requires=[inv + ' && FREE(self->m_mutex) && vf_held == 0 && !vf_exc && newObj != &self->m_obj && newObj->life == VF_LIVE && newObj->guard == 0 && ' + R3],
-            ensures=[('C01 C15 C20', ONE_CS, 'exactly one critical section; the lock is released on normal and on exceptional exit'),
-                     ('C15', '!vf_exc ==> self->m_obj.v == __CPROVER_old(newObj->v)', 'store/assignment sets the value'),
-                     ('C20', 'vf_exc ==> (self->m_obj.v == vf_cs_entry_v || self->m_obj.torn || self->m_obj.v == __CPROVER_old(newObj->v))', "a throwing assignment leaves T in whatever state T's own guarantee gives, nothing else"),
-                     ('C15 C20', inv, 'wrapper invariant'),
-                     ('', G3, 'counters')] + ([('C15', '!vf_exc ==> __CPROVER_return_value == self', 'returns *this')] if m == 'op_assign' else []),
-            assigns='self->m_mutex, self->m_obj.v, self->m_obj.torn, newObj->v, newObj->torn, ' + GHOST_ASSIGNS)
-    return e
-
-
-FN.update(whole_object_ops('guarded', 'G(self)', GSET))
-
-# ---- guarded_opt<T,M>
-got, miss, cnt_b, held = acq_post('vf_ret', '&self->m_obj', '&self->m_mutex', 'block')
-DIS = '(vf_ret->data == &self->m_obj && !vf_ret->m_handle_lock.owns && vf_n_mutex_ops == __CPROVER_old(vf_n_mutex_ops) && vf_n_block == __CPROVER_old(vf_n_block) && vf_n_timed == __CPROVER_old(vf_n_timed) && vf_held == __CPROVER_old(vf_held))'
-FN[r'guarded_opt::lock'] = dict(
-    props='C01 C08', setup=GOSET,
-    requires=['GO(self) && FREE(self->m_mutex) && vf_held == 0 && !vf_exc && ' + R3],
-    ensures=[('C01 C08', 'self->enabled ==> (%s && %s && %s)' % (got, cnt_b, held), 'enabled: as guarded::lock'),
-             ('C08', '!self->enabled ==> ' + DIS, 'disabled: usable handle immediately, no mutex operation at all'),
-             ('C01 C08', 'GO(self) && !vf_exc && ' + G3, 'wrapper invariant')],
-    assigns='*vf_ret, self->m_mutex, self->m_obj.v, ' + GHOST_ASSIGNS)
-for _m, _mode in (('try_lock', 'try'), ('try_lock_for', 'timed'), ('try_lock_until', 'timed')):
-    got, miss, cnt, held = acq_post('vf_ret', '&self->m_obj', '&self->m_mutex', _mode)
-    FN[r'guarded_opt::' + _m] = dict(
-        props='C01 C08', setup=GOSET,
-        requires=['GO(self) && vf_held == 0 && !vf_exc && ' + R3],
-        ensures=[('C01 C08', 'self->enabled ==> ((%s || %s) && %s && %s)' % (got, miss, cnt, held), 'enabled: as guarded::try_lock*'),
-                 ('C08', '!self->enabled ==> ' + DIS, 'disabled: usable handle immediately, no mutex operation at all'),
-                 ('C01 C08', 'GO(self) && !vf_exc && ' + G3, 'wrapper invariant')],
-        assigns='*vf_ret, self->m_mutex, self->m_obj.v, ' + GHOST_ASSIGNS)
-FN.update(whole_object_ops('guarded_opt', 'GO(self) && self->enabled', GOSET))
+merge(FN, handle_entries('lock_handle', 'C01 C08'))
+merge(FN, try_handle_entries('try_lock_handle', 'C01 C08'))
+ACQ = [('lock', 'block', None), ('try_lock', 'try', None), ('try_lock_for', 'timed', None), ('try_lock_until', 'timed', None)]
+merge(FN, wrapper_acq_entries('guarded', ACQ, 'C01 C08', 'G(self)', GSET))
+merge(FN, whole_object_ops('guarded', 'G(self)', GSET))
+merge(FN, wrapper_acq_entries('guarded_opt', ACQ, 'C01 C08', 'GO(self)', GOSET, opt=True))
+merge(FN, whole_object_ops('guarded_opt', 'GO(self) && self->enabled', GOSET))
